@@ -310,7 +310,9 @@ def check_comments(run: Run, pmodel: ParserModel) -> None:
                 if key in seen_c:
                     continue
                 seen_c.add(key)
-                run.violation("R02.3", pm, fi.qualname, f"COMMENT discarded after `{_text(t.ast)[:50]}`", f"after `{_text(t.ast)[:60]}` the current token can be a COMMENT and `{key}` moves past it without storing its text anywhere: the comment is missing from the document that is read (and from the canonical text)", path=[cfg.nodes[i].lineno for i in path if cfg.nodes[i].lineno])
+                # keyed by the set of token kinds the test admits, not by how the test is spelled (a hoisted or renamed set
+                # constant must not turn a recorded finding into a new one)
+                run.violation("R02.3", pm, fi.qualname, "COMMENT discarded where the current token is one of {" + ",".join(sorted(s0)) + "}", f"after `{_text(t.ast)[:60]}` the current token can be a COMMENT and `{key}` moves past it without storing its text anywhere: the comment is missing from the document that is read (and from the canonical text)", path=[cfg.nodes[i].lineno for i in path if cfg.nodes[i].lineno])
     run.extra["comment_test_sites"] = n_sites
     # expect() is only ever asked for concrete non-comment kinds
     bad_expect = []
